@@ -232,6 +232,11 @@ fn json_part(cx: &mut Cx, victim: NodeId, h: Arc<Honest>, ai: usize, kind: usize
                     (format!("nonhex_head{n}"), format!("\"g{}\"", "0".repeat(n - 1))),
                     (format!("utf8_{n}"), format!("\"{}\"", "\u{e9}".repeat(n / 2))),
                     (format!("upperhex{n}"), format!("\"{}\"", "AB".repeat(n / 2))),
+                    // one multi-octet character at octet offset 1 / 2 / 3 of an otherwise plausible hex
+                    // text (a decoder that cuts a prefix off at a byte offset: "0x", a sign, a radix tag)
+                    (format!("utf8_at_offset1_{n}"), format!("\"0\u{e9}{}\"", "a".repeat(n))),
+                    (format!("utf8_at_offset2_{n}"), format!("\"0x\u{20ac}{}\"", "a".repeat(n))),
+                    (format!("utf8_at_offset3_{n}"), format!("\"-0x\u{e9}{}\"", "a".repeat(n))),
                 ]).collect();
                 // the externally tagged enums: every variant name the generic types declare, with
                 // the honest payload and with null
@@ -329,6 +334,11 @@ fn int_part(cx: &mut Cx, victim: NodeId, h: Arc<Honest>, which: usize) {
             add(cx, "blind_proof_verify", format!("disclosed_indexes {d}"), v.len() as u64, Box::new(move || api::blind_proof_verify(s, &h2.pk, &h2.bproof, &h2.header, &h2.ph, Some(h2.msgs.len()), &Some(dm2), &Some(dcm2), &Some(v2), &Some(h2.dcidx.clone())).accepted()));
             let (h2, dm2, dcm2, v2) = (h.clone(), dm.clone(), dcm.clone(), v.clone());
             add(cx, "blind_proof_verify", format!("disclosed_commitment_indexes {d}"), v.len() as u64, Box::new(move || api::blind_proof_verify(s, &h2.pk, &h2.bproof, &h2.header, &h2.ph, Some(h2.msgs.len()), &Some(dm2), &Some(dcm2), &Some(h2.didx.clone()), &Some(v2)).accepted()));
+            // the same lists with L ABSENT (a verifier that derives L from what it is given)
+            let (h2, dm2, dcm2, v2) = (h.clone(), dm.clone(), dcm.clone(), v.clone());
+            add(cx, "blind_proof_verify", format!("disclosed_indexes {d}, L absent"), v.len() as u64, Box::new(move || api::blind_proof_verify(s, &h2.pk, &h2.bproof, &h2.header, &h2.ph, None, &Some(dm2), &Some(dcm2), &Some(v2), &Some(h2.dcidx.clone())).accepted()));
+            let (h2, dm2, dcm2, v2) = (h.clone(), dm.clone(), dcm.clone(), v.clone());
+            add(cx, "blind_proof_verify", format!("disclosed_commitment_indexes {d}, L absent"), v.len() as u64, Box::new(move || api::blind_proof_verify(s, &h2.pk, &h2.bproof, &h2.header, &h2.ph, None, &Some(dm2), &Some(dcm2), &Some(h2.didx.clone()), &Some(v2)).accepted()));
         },
         3 => for (d, v) in lists.clone() {
             let (h2, v2) = (h.clone(), v.clone());
